@@ -332,3 +332,66 @@ Proof.
   - intros s clk now need o. apply m_handle_unexpected_fails.
   - intros s clk now o H. apply m_handle_done in H. destruct H as [_ [Hn _]]. discriminate.
 Qed.
+
+(* ------------------------------------------------------------------------------------------ *)
+(* the closed form against the simulated engine (master task + outstation task + channel, through
+   the byte encodings): a finite sweep evaluated by the kernel.  The same comparison is repeated at
+   run time by ocaml/eng_tsync.ml on every generated script that declares itself plain. *)
+
+Definition ts_err_eqb (a b : ts_err) : bool :=
+  match a, b with
+  | TsETimeout, TsETimeout | TsEIin2, TsEIin2 | TsEHeaders, TsEHeaders | TsEMultiFrag, TsEMultiFrag
+  | TsEOverflow, TsEOverflow | TsENeedTime, TsENeedTime | TsENoSysTime, TsENoSysTime => true
+  | TsEDelay x, TsEDelay y => x =? y
+  | _, _ => false
+  end.
+
+(* what the trace of the engine says about the synchronisation with token 0: its outcome, and for a
+   success the last time handed to the application before it *)
+Fixpoint engine_outcome (last : option (Z * Z)) (obs : list ts_obs) : option ts_outcome :=
+  match obs with
+  | [] => None
+  | TsWritten t v :: rest => engine_outcome (Some (v, t)) rest
+  | TsRes 0%N None :: _ => match last with Some (v, t) => Some (TsSuccess v t) | None => None end
+  | TsRes 0%N (Some e) :: _ => Some (TsFailure e)
+  | _ :: rest => engine_outcome last rest
+  end.
+
+Definition outcome_agrees (e : option ts_outcome) (c : ts_outcome) : bool :=
+  match e, c with
+  | Some (TsSuccess v t), TsSuccess v' t' => (v =? v') && (t =? t')
+  | Some (TsFailure a), TsFailure b => ts_err_eqb a b
+  | _, _ => false
+  end.
+
+Definition grid_script (f b h rep : Z) : list ts_op :=
+  [TsOpFwd f; TsOpBack b; TsOpHold h; TsOpProc rep; TsOpSync 0%N; TsOpRun 1000000].
+
+Definition grid_sched (c0 f b h rep tmo : Z) (m : ts_need_mode) : ts_sched :=
+  {| tsp_c0 := c0; tsp_on := true; tsp_t0 := 0; tsp_f1 := f; tsp_b1 := h + b; tsp_f2 := f; tsp_b2 := h + b;
+     tsp_tmo := tmo; tsp_rep := Z.min rep 65535; tsp_mode := m;
+     tsp_need0 := match m with TsNClear => false | _ => true end; tsp_rec0 := None |}.
+
+Lemma engine_agrees_with_closed_form_on_grid :
+  forallb (fun p =>
+  forallb (fun m =>
+  forallb (fun tmo =>
+  forallb (fun c0 =>
+  forallb (fun f =>
+  forallb (fun b =>
+  forallb (fun h =>
+  forallb (fun rep =>
+    outcome_agrees
+      (engine_outcome None
+         (run_tsync {| tsc_c0 := c0; tsc_proc := p; tsc_tmo := tmo; tsc_mode := m |} (grid_script f b h rep)))
+      (plain_sync p (grid_sched c0 f b h rep tmo m)))
+    [h; h + 1; f + h + b; f + h + b + 1; 65535])
+    [0; 7; 65536])
+    [0; 1; 3; 65535])
+    [0; 1; 2; 500; 70000])
+    [0; 140737488355328; ts_max - 70000; ts_max])
+    [400003; 1001])
+    [TsNAuto; TsNStuck])
+    [TsLan; TsNonLan; TsDirect]
+  = true.
+Proof. vm_compute. reflexivity. Qed.
